@@ -198,6 +198,17 @@ inline Node gen_node(const SchemaShape& sh, int level, sim::Rng& r, const TreePa
         }
         if(depth >= 2 && cnt > 2) cnt = 2;
         if(g.wire_bl > 1000 && cnt > 2) cnt = 2; // keep frames well inside the arena window
+        // numInGroup in the upper half of an 8-bit counter (where its signed counterpart is negative): flat groups
+        // with short entries only, decided by a fork so that all other frames stay what they were
+        if(gs.flat && h.num_in_group.width == 1 && g.wire_bl <= 16 && depth <= 1 && tp.max_boundary >= 255)
+        {
+            sim::Rng big = r.fork("count-in-upper-half");
+            if(big.chance(1, 5))
+            {
+                static const unsigned counts[] = {127, 128, 129, 200, 253, 254};
+                cnt = counts[big.below(6)];
+            }
+        }
         cnt = (unsigned)std::min<u64>(cnt, width_mask(h.num_in_group.width) - 1);
         for(unsigned i = 0; i < cnt; i++) g.entries.push_back(gen_node(sh, gs.level, r, tp, g.wire_bl, depth + 1));
         n.groups.push_back(std::move(g));
